@@ -1,7 +1,7 @@
 (* C09: the unconditional corollary for programs without serde(rename) on types. *)
 From Coq Require Import List Bool String.
-From TS Require Import Model.Str Model.Outcome Model.Unicode Model.Types Model.Parse Model.Lang.Decl Model.Lang.Kotlin Spec.C09Spec.
-From TS Require Import Proofs.C09Common Proofs.C09Recon Proofs.C09_KotlinFile Proofs.C09Witness.
+From TS Require Import Model.Str Model.Outcome Model.Unicode Model.Types Model.Parse Model.Lang.Decl Model.Lang.Kotlin Model.Lang.TypeScript Model.Lang.Scala Model.Lang.Python Model.Lang.Swift Model.Lang.Go Spec.C09Spec.
+From TS Require Import Proofs.C09Common Proofs.C09Recon Proofs.C09_KotlinFile Proofs.C09Witness Proofs.C09_TypeScript Proofs.C09_Scala Proofs.C09_Python Proofs.C09_Swift Proofs.C09_Go.
 Import ListNotations.
 
 Lemma c09_no_rename_kotlin (uc : unicode) (cfg : kt_config) (pd : parsed) :
@@ -13,4 +13,64 @@ Lemma c09_no_rename_kotlin (uc : unicode) (cfg : kt_config) (pd : parsed) :
 Proof.
   intros Hd Hr Hi fd H.
   exact (c09_kotlin uc cfg [] pd Hd (c09_no_rename_known Kotlin _ pd Hr Hi) fd H).
+Qed.
+
+(* outside Kotlin no alias is in the inline-generic class *)
+Lemma c09_no_inline_class (L : lang) (pfx : str) (a : Types.ralias) : L <> Kotlin -> c09_inline_generic_class L pfx a = None.
+Proof. destruct L; try reflexivity. intros C. exfalso. apply C. reflexivity. Qed.
+
+Lemma c09_no_rename_typescript (uc : unicode) (cfg : ts_config) (pd : parsed) :
+  dom_C09 TypeScript [] pd = true ->
+  (forall e, In e (c09_entities pd) -> c09_renamed_away (c9e_id e) = false) ->
+  forall fd : file_decls, ts_file_decls uc cfg (c09_reconciled pd) = Ok fd ->
+    good_C09 TypeScript [] pd (c09_observe TypeScript fd) = true.
+Proof.
+  intros Hd Hr fd H.
+  refine (c09_typescript uc cfg pd Hd [] fd (c09_no_rename_known TypeScript _ pd Hr _) H).
+  intros a _. apply c09_no_inline_class. discriminate.
+Qed.
+
+Lemma c09_no_rename_scala (uc : unicode) (cfg : sc_config) (pd : parsed) :
+  dom_C09 Scala [] pd = true ->
+  (forall e, In e (c09_entities pd) -> c09_renamed_away (c9e_id e) = false) ->
+  forall fd : file_decls, sc_file_decls uc cfg (c09_reconciled pd) = Ok fd ->
+    good_C09 Scala [] pd (c09_observe Scala fd) = true.
+Proof.
+  intros Hd Hr fd H.
+  refine (c09_scala uc cfg pd Hd [] fd (c09_no_rename_known Scala _ pd Hr _) H).
+  intros a _. apply c09_no_inline_class. discriminate.
+Qed.
+
+Lemma c09_no_rename_python (uc : unicode) (cfg : py_config) (pd : parsed) :
+  dom_C09 Python [] pd = true ->
+  (forall e, In e (c09_entities pd) -> c09_renamed_away (c9e_id e) = false) ->
+  forall fd : file_decls, py_file_decls uc cfg (c09_reconciled pd) = Ok fd ->
+    good_C09 Python [] pd (c09_observe Python fd) = true.
+Proof.
+  intros Hd Hr fd H.
+  refine (c09_python uc cfg pd Hd [] fd (c09_no_rename_known Python _ pd Hr _) H).
+  intros a _. apply c09_no_inline_class. discriminate.
+Qed.
+
+Lemma c09_no_rename_swift (uc : unicode) (cfg : sw_config) (pd : parsed) :
+  dom_C09 Swift (sw_prefix cfg) pd = true ->
+  (forall e, In e (c09_entities pd) -> c09_renamed_away (c9e_id e) = false) ->
+  forall fd : file_decls, sw_file_decls uc cfg (c09_reconciled pd) = Ok fd ->
+    good_C09 Swift (sw_prefix cfg) pd (c09_observe Swift fd) = true.
+Proof.
+  intros Hd Hr fd H.
+  refine (c09_swift uc cfg pd Hd [] fd (c09_no_rename_known Swift _ pd Hr _) H).
+  intros a _. apply c09_no_inline_class. discriminate.
+Qed.
+
+Lemma c09_no_rename_go_no_acronyms (uc : unicode) (cfg : go_config) (pd : parsed) :
+  go_uppercase_acronyms cfg = [] ->
+  dom_C09 Go [] pd = true ->
+  (forall e, In e (c09_entities pd) -> c09_renamed_away (c9e_id e) = false) ->
+  forall fd : file_decls, go_file_decls uc cfg (c09_reconciled pd) = Ok fd ->
+    good_C09 Go [] pd (c09_observe Go fd) = true.
+Proof.
+  intros Ha Hd Hr fd H.
+  refine (c09_go uc cfg Ha pd Hd [] fd (c09_no_rename_known Go _ pd Hr _) H).
+  intros a _. apply c09_no_inline_class. discriminate.
 Qed.
